@@ -26,8 +26,8 @@ static InItem mk_in(const Op &op) {
   auto A = [&](size_t i) -> int64_t { return i < op.a.size() ? op.a[i] : 0; };
   it.t = (int)(((A(0) % 5) + 5) % 5);
   it.delay = std::min<int64_t>(std::max<int64_t>(A(1), 0), 10000000);
-  static const int errs[] = {ECONNRESET, EPIPE, ETIMEDOUT, EIO, ENOTCONN};
-  it.err = it.t == IN_SPUR ? (A(2) & 1 ? EWOULDBLOCK : EAGAIN) : errs[((A(2) % 5) + 5) % 5];
+  static const int errs[] = {ECONNRESET, EPIPE, ETIMEDOUT, EIO, ENOTCONN, ENOMEM, ENOBUFS, ECONNREFUSED, EHOSTUNREACH};
+  it.err = it.t == IN_SPUR ? (A(2) & 1 ? EWOULDBLOCK : EAGAIN) : errs[((A(2) % 9) + 9) % 9];
   it.hup = A(3) & 1;
   if (it.t == IN_DATA) it.data = op.b.empty() ? prbytes((uint64_t)A(4), (size_t)std::min<int64_t>(std::max<int64_t>(A(5), 1), 200000)) : op.b;
   return it;
@@ -38,8 +38,8 @@ static OutItem mk_out(const Op &op) {
   it.t = (int)(((A(0) % 5) + 5) % 5);
   it.n = (size_t)std::min<int64_t>(std::max<int64_t>(A(1), 1), 1 << 20);
   it.delay = std::min<int64_t>(std::max<int64_t>(A(2), 0), 10000000);
-  static const int errs[] = {EPIPE, ECONNRESET, ETIMEDOUT, EIO, ENOTCONN};
-  it.err = it.t == OUT_EAGAIN ? (A(3) & 1 ? EWOULDBLOCK : EAGAIN) : errs[((A(3) % 5) + 5) % 5];
+  static const int errs[] = {EPIPE, ECONNRESET, ETIMEDOUT, EIO, ENOTCONN, ENOBUFS, ENOMEM, EACCES, EHOSTUNREACH, ENETDOWN};
+  it.err = it.t == OUT_EAGAIN ? (A(3) & 1 ? EWOULDBLOCK : EAGAIN) : errs[((A(3) % 10) + 10) % 10];
   return it;
 }
 
@@ -308,13 +308,13 @@ static rc::Gen<Case> gen_reader(int tier) {
       int t = *rc::gen::weightedElement<int>({{9, IN_DATA}, {2, IN_SPUR}, {1, IN_EINTR}});
       int64_t delay = *rc::gen::weightedOneOf<int64_t>({{3, rc::gen::just<int64_t>(0)}, {2, rc::gen::elementOf(std::vector<int64_t>{1, 999, 1000, 1001, 2000, 50000})}});
       int64_t len = *rc::gen::weightedOneOf<int64_t>({{4, range<int64_t>(1, 20)}, {3, range<int64_t>(1, 5000)}, {1, rc::gen::elementOf(std::vector<int64_t>{4095, 4096, 4097, 8192})}, {1, range<int64_t>(1, std::max<int64_t>(1, want))}});
-      c.push_back(Op("in", {t, delay, *range<int>(0, 4), 0, *rc::gen::arbitrary<int>(), len}));
+      c.push_back(Op("in", {t, delay, *range<int>(0, 8), 0, *rc::gen::arbitrary<int>(), len}));
       if (t == IN_DATA) produced += len;
     }
     int end = *rc::gen::weightedElement<int>({{4, 0}, {2, 1}, {2, 2}, {4, 3}});
     if (end == 3 && produced < want) c.push_back(Op("in", {IN_DATA, *range<int>(0, 1) * 1000, 0, 0, *rc::gen::arbitrary<int>(), want - produced + *range<int>(0, 10)}));
     if (end == 0 || end == 3) c.push_back(Op("in", {IN_EOF, *rc::gen::elementOf(std::vector<int64_t>{0, 0, 1000, 2500}), 0, *range<int>(0, 1), 0, 0}));
-    if (end == 1) c.push_back(Op("in", {IN_ERR, *rc::gen::elementOf(std::vector<int64_t>{0, 0, 1000, 2500}), *range<int>(0, 4), *range<int>(0, 1), 0, 0}));
+    if (end == 1) c.push_back(Op("in", {IN_ERR, *rc::gen::elementOf(std::vector<int64_t>{0, 0, 1000, 2500}), *range<int>(0, 8), *range<int>(0, 1), 0, 0}));
     if (*range<int>(0, 5) == 0) c.push_back(Op("eintr"));
     return c;
   });
@@ -544,9 +544,9 @@ static rc::Gen<Case> gen_writer(int tier) {
     for (int i = 0; i < nitems; i++) {
       int t = *rc::gen::weightedElement<int>({{8, OUT_ACCEPT}, {3, OUT_EAGAIN}, {2, OUT_EINTR}, {2, OUT_BLOCK}});
       int64_t n = *rc::gen::weightedOneOf<int64_t>({{4, range<int64_t>(1, 20)}, {3, range<int64_t>(1, 5000)}, {1, range<int64_t>(1, std::max<int64_t>(1, total))}});
-      c.push_back(Op("out", {t, n, *rc::gen::elementOf(std::vector<int64_t>{0, 1, 999, 1000, 1001, 2000, 50000}), *range<int>(0, 4)}));
+      c.push_back(Op("out", {t, n, *rc::gen::elementOf(std::vector<int64_t>{0, 1, 999, 1000, 1001, 2000, 50000}), *range<int>(0, 9)}));
     }
-    if (*range<int>(0, 3) == 0) c.push_back(Op("out", {OUT_ERR, 1, 0, *range<int>(0, 4)}));
+    if (*range<int>(0, 3) == 0) c.push_back(Op("out", {OUT_ERR, 1, 0, *range<int>(0, 9)}));
     return c;
   });
 }
